@@ -205,26 +205,34 @@ type vpRConn struct {
 	items []vpReply
 }
 
-func (c *vpRConn) RemoteAddr() string          { return "vp" }
-func (c *vpRConn) Close() error                { return nil }
-func (c *vpRConn) WriteError(msg string)       { c.items = append(c.items, vpReply{kind: "err", s: msg}) }
-func (c *vpRConn) WriteString(str string)      { c.items = append(c.items, vpReply{kind: "str", s: str}) }
-func (c *vpRConn) WriteBulk(bulk []byte)       { c.items = append(c.items, vpReply{kind: "bulk", b: vpDup(bulk)}) }
-func (c *vpRConn) WriteBulkString(bulk string) { c.items = append(c.items, vpReply{kind: "bulk", b: []byte(bulk)}) }
-func (c *vpRConn) WriteInt(num int)            { c.items = append(c.items, vpReply{kind: "int", n: int64(num)}) }
-func (c *vpRConn) WriteInt64(num int64)        { c.items = append(c.items, vpReply{kind: "int", n: num}) }
-func (c *vpRConn) WriteUint64(num uint64)      { c.items = append(c.items, vpReply{kind: "int", n: int64(num)}) }
-func (c *vpRConn) WriteArray(count int)        { c.items = append(c.items, vpReply{kind: "array", n: int64(count)}) }
-func (c *vpRConn) WriteNull()                  { c.items = append(c.items, vpReply{kind: "null"}) }
-func (c *vpRConn) WriteRaw(data []byte)        {}
-func (c *vpRConn) WriteAny(any interface{})    {}
-func (c *vpRConn) Context() interface{}        { return nil }
-func (c *vpRConn) SetContext(v interface{})    {}
-func (c *vpRConn) SetReadBuffer(bytes int)     {}
-func (c *vpRConn) Detach() redcon.DetachedConn { return nil }
+func (c *vpRConn) RemoteAddr() string     { return "vp" }
+func (c *vpRConn) Close() error           { return nil }
+func (c *vpRConn) WriteError(msg string)  { c.items = append(c.items, vpReply{kind: "err", s: msg}) }
+func (c *vpRConn) WriteString(str string) { c.items = append(c.items, vpReply{kind: "str", s: str}) }
+func (c *vpRConn) WriteBulk(bulk []byte) {
+	c.items = append(c.items, vpReply{kind: "bulk", b: vpDup(bulk)})
+}
+func (c *vpRConn) WriteBulkString(bulk string) {
+	c.items = append(c.items, vpReply{kind: "bulk", b: []byte(bulk)})
+}
+func (c *vpRConn) WriteInt(num int)     { c.items = append(c.items, vpReply{kind: "int", n: int64(num)}) }
+func (c *vpRConn) WriteInt64(num int64) { c.items = append(c.items, vpReply{kind: "int", n: num}) }
+func (c *vpRConn) WriteUint64(num uint64) {
+	c.items = append(c.items, vpReply{kind: "int", n: int64(num)})
+}
+func (c *vpRConn) WriteArray(count int) {
+	c.items = append(c.items, vpReply{kind: "array", n: int64(count)})
+}
+func (c *vpRConn) WriteNull()                     { c.items = append(c.items, vpReply{kind: "null"}) }
+func (c *vpRConn) WriteRaw(data []byte)           {}
+func (c *vpRConn) WriteAny(any interface{})       {}
+func (c *vpRConn) Context() interface{}           { return nil }
+func (c *vpRConn) SetContext(v interface{})       {}
+func (c *vpRConn) SetReadBuffer(bytes int)        {}
+func (c *vpRConn) Detach() redcon.DetachedConn    { return nil }
 func (c *vpRConn) ReadPipeline() []redcon.Command { return nil }
 func (c *vpRConn) PeekPipeline() []redcon.Command { return nil }
-func (c *vpRConn) NetConn() net.Conn           { return nil }
+func (c *vpRConn) NetConn() net.Conn              { return nil }
 
 func vpDup(b []byte) []byte {
 	c := make([]byte, len(b))
